@@ -118,6 +118,20 @@ func checkC12(r *core.Run, p *core.Program) {
 			}
 			sites++
 			addArg(arg, 0)
+			// the Go type of the key agrees with the data type it is announced under
+			if cal.Name() == "OnKeyableObject" {
+				if dc, ok := objOf(info, call.Args[1]).(*types.Const); ok {
+					want := map[string]string{"DataTypeBool": "bool", "DataTypeInt": "int", "DataTypeUID": "uid", "DataTypeTime": "time", "DataTypeString": "string", "DataTypeResourceID": "rid"}[dc.Name()]
+					t := info.TypeOf(arg)
+					if tv, ok := info.Types[arg]; ok && tv.Value != nil {
+						t = types.Default(t)
+					}
+					if want != "" && keyClass(t) != "iface" {
+						r.Check("C12.disjoint", f.Name()+"|key announced as "+dc.Name(), call.Pos(), keyClass(t) == want,
+							fmt.Sprintf("a key announced as %s is handed over as a Go %s (kind %q): it is stored in the key set among the keys of that other kind, so a %s and a %s with the same bytes are reported as duplicates of each other", dc.Name(), t.String(), keyClass(t), want, keyClass(t)))
+					}
+				}
+			}
 		})
 	}
 	r.Floor("C12.normalise", "key boxing sites", sites, 12)
@@ -244,7 +258,30 @@ func checkC12(r *core.Run, p *core.Program) {
 				if !ok1 || n1 == 0 {
 					shapeOK, detail = false, "the first test on a *big.Int key must be IsUint64 (values 0..2^63-1 satisfy IsInt64 too and must become uint64)"
 				}
-			case t.String() == core.ModulePath+"/rules.negint":
+			case t.String() == core.ModulePath+"/rules.negint" && func() bool {
+				// boundary of the negative magnitudes: 2^63 (= -MinInt64) must still be keyed as an integer, and
+				// larger magnitudes must not be converted to int64 (decided by evaluating the guards of each rewrite)
+				tsv := typeSwitchVar(info, ts, cc)
+				if tsv == nil {
+					return true
+				}
+				for _, w := range keyWrites(p, info, cc.Body, keyParam, nk.Obj) {
+					var conds []ast.Expr
+					var pols []bool
+					for _, g := range w.guards {
+						conds, pols = append(conds, g.cond), append(pols, !g.neg)
+					}
+					wt := info.TypeOf(w.rhs)
+					_, isArr := wt.Underlying().(*types.Array)
+					if isArr && uintPathFeasible(p, info, conds, pols, tsv, 1<<63) {
+						shapeOK, detail = false, "the magnitude 2^63 (the number -9223372036854775808, which fits int64) is keyed as a word array: the same number delivered as an int64 or a big integer gets a different key, so the duplicate is missed"
+					}
+					if b, isB := wt.Underlying().(*types.Basic); isB && b.Kind() == types.Int64 && uintPathFeasible(p, info, conds, pols, tsv, 1<<63+1) {
+						shapeOK, detail = false, "magnitudes above 2^63 can reach the int64 conversion, which wraps"
+					}
+				}
+				return true
+			}():
 				neg := false
 				ast.Inspect(cc, func(nd ast.Node) bool {
 					switch x := nd.(type) {
@@ -448,4 +485,12 @@ func keyWrites(p *core.Program, info *types.Info, body []ast.Stmt, keyParam type
 	}
 	stmts(body, nil, false, 0)
 	return out
+}
+
+// typeSwitchVar returns the object the type switch binds in the given clause (`switch v := x.(type)`).
+func typeSwitchVar(info *types.Info, ts *ast.TypeSwitchStmt, cc *ast.CaseClause) types.Object {
+	if o := info.Implicits[cc]; o != nil {
+		return o
+	}
+	return nil
 }
